@@ -81,6 +81,11 @@ func newSeqEnv(mode, scratch string) (*seqEnv, error) {
 		if err := e.colls[c].PutDDoc(context.Background(), "vd", viewDDoc()); err != nil {
 			return nil, err
 		}
+		// a second design document whose view is queried only now and then, so that its index is brought up to
+		// date over several writes at once
+		if err := e.colls[c].PutDDoc(context.Background(), "ld", viewDDoc()); err != nil {
+			return nil, err
+		}
 	}
 	e.kfeeds = map[string]*feedBuf{}
 	for _, c := range collNames {
@@ -372,9 +377,9 @@ func (sr *seqRunner) runPath(trNo int, ops []GenOp) error {
 		}
 		if sr.aux {
 			// SQL queries and views of the target collection (a freshly built view at the end of the path)
-			for _, ao := range sr.observeAux(x, op.Coll, suffix, i == len(ops)-1) {
+			for _, ao := range sr.observeAux(x, op.Coll, suffix, i == len(ops)-1, i%3 == 2 || i == len(ops)-1) {
 				js, _ := jsonNoRank(ao)
-				if prev, ok := prevAux[ao.C+"/"+ao.Kind]; !ok || prev != js || ao.Kind == "viewfresh" {
+				if prev, ok := prevAux[ao.C+"/"+ao.Kind]; !ok || prev != js || ao.Kind == "viewfresh" || ao.Kind == "viewlate" {
 					prevAux[ao.C+"/"+ao.Kind] = js
 					step.Aux = append(step.Aux, ao)
 				}
